@@ -60,6 +60,7 @@ class _Run:
         self.taint_x = set()     # objects / ids that took part in an *effective* force (one an unforced call would
         self.taint_id = set()    # have refused): forced replacement of an id, forced second id of an object
         self.multi_x = set()     # objects that were registered under two or more ids at the same time
+        self.last_mut = {}       # xkey -> last operation that changed this object's registrations (part of multi-id keys)
         self.remote = 0
         self.accepted = 0
         self._ix, self._iids = [], []
@@ -83,11 +84,34 @@ class _Run:
     def viol(self, kind, key, msg):
         tier = self.tier(list(self._ix), list(self._iids))
         if tier == "extended" and any(x in self.multi_x for x in self._ix if x is not None):
-            # one root cause (the marks on an object track only its latest id) shows under many contexts: one key
-            key = "multi-id"
+            # one root cause (the marks on an object track only its latest id) shows under many contexts: the key is
+            # the history pattern - what last changed the registrations of the multi-id object this finding is about
+            mx = [x for x in self._ix if x is not None and x in self.multi_x]
+            key = "multi-id:" + self.mark_state(mx[0])
         self.ctx.violate(kind, "%s:%s" % (tier, key),
                          "step %d %s: %s" % (self.i, json.dumps(self.op, sort_keys=True), msg))
         raise _Stop()
+
+    def mark_state(self, xk):
+        """state of the registration marks the daemon left on the object (only used to NAME a multi-id finding):
+        the known cluster is 'registered under some id while the marks are stale or gone'"""
+        obj = None
+        if xk[0] == "o":
+            for slot, ser in self.serial.items():
+                if ser == xk[1]:
+                    obj = self.pool.get(slot) if isinstance(self.pool, dict) else self.pool[slot]
+        elif xk[0] == "c":
+            obj = O.CLASSES[xk[1]]
+        if obj is None:
+            return "object-gone"
+        pid = getattr(obj, "_pyroId", None)
+        pd = getattr(obj, "_pyroDaemon", None)
+        if pid is None:
+            return "no-id-mark"
+        ent = self.table.get(pid)
+        if ent is None or ent[0] != xk:
+            return "id-mark-stale"
+        return "id-mark-valid" if pd is self.daemon else "id-mark-valid:daemon-mark-lost"
 
     def fresh(self, slot):
         self.serial[slot] = self.next_serial
@@ -289,6 +313,9 @@ class _Run:
                 self.taint_x.add(old[0])
             ctx.probe("forced")
         self.table[new_id] = (xk, weak)
+        self.last_mut[xk] = "register-forced" if force else "register"
+        if old is not None and old[0] != xk:
+            self.last_mut[old[0]] = "replaced"
         if len(self.ids_of(xk)) >= 2:
             self.multi_x.add(xk)     # this object has (had) several ids at once: only a forced registration can do that
         if old is not None and old[0] != xk and not self.ids_of(old[0]):
@@ -324,6 +351,7 @@ class _Run:
                     del self.table[i]
                     self.id_lost[i] = "unregister-by-object"
                 self.lost[xk] = "unregister-by-object"
+                self.last_mut[xk] = "unregister-by-object"
                 ctx.probe("unregister_by_object")
             # an object that is not registered: refusing and doing nothing are both fine; the table must not change
             self.audit("unregister-by-object:" + st)
@@ -347,6 +375,11 @@ class _Run:
             if got[0] != "ok":
                 self.viol("unregister-refused", "by-id", "id %r is registered, unregister(id) said: %s" % (oid, got[1]))
             xk = self.table.pop(oid)[0]
+            latest = self.last_id.get((xk[0], xk[1])) if xk[0] == "c" else None
+            for slot_key, lid in self.last_id.items():
+                if slot_key[0] == "o" and xk[0] == "o" and self.serial.get(slot_key[1]) == xk[1]:
+                    latest = lid
+            self.last_mut[xk] = "unregister-by-id:" + ("latest" if oid == latest else "older")
             self.id_lost[oid] = "unregister-by-id"
             if not self.ids_of(xk):
                 self.lost[xk] = "unregister-by-id"
